@@ -133,6 +133,11 @@ def install(w):
     c = frame_contract(w, N + "find_descendant", {"self": "Node", "descendant_name": "str"}, node_param="self", recursive=True, result_ty="opt:Node")
     w.loop(N + "find_descendant", 1, **loop_frames(node_var="self", var_types={"descendant": "opt:Node"}))
     out["find_descendant"] = (Node.find_descendant, c)
+    # ---- small accessors and the printable forms
+    out["attribute_value"] = (Node.attribute_value, frame_contract(w, N + "attribute_value", {"self": "Node", "name": "str"}, result_ty="val"))
+    out["list_attributes"] = (Node.list_attributes, frame_contract(w, N + "list_attributes", {"self": "Node"}, result_ty="val"))
+    out["__str__"] = (Node.__str__, frame_contract(w, N + "__str__", {"self": "Node"}, result_ty="val"))
+    out["__repr__"] = (Node.__repr__, frame_contract(w, N + "__repr__", {"self": "Node"}, result_ty="val"))
     # ---- serialisers
     c = frame_contract(w, IO + "_serialize", {"node": "Node"}, node_param="node", recursive=True, result_ty="val")
     w.loop(IO + "_serialize", 1, **loop_frames(node_var="node"))
